@@ -330,7 +330,14 @@ func (w *vfC19World) exportMove(p *vfC19Peer, mutate func([]byte) []byte, move b
 		<-p.done
 	}
 	_ = p.ep.SetReadDeadline(time.Time{})
-	var st2 State
+	// the decode target is a State that already holds another session's values: UnmarshalBinary replaces its receiver
+	// (an application that keeps one State variable and decodes one session after another into it), so whatever the
+	// serialised session does not carry must read as absent afterwards, not as the previous occupant's value
+	st2 := State{
+		srtpProtectionProfile: SRTP_AEAD_AES_256_GCM, peerSRTPMKI: []byte{0xde, 0xc0}, NegotiatedProtocol: "verif-decoy",
+		IdentityHint: []byte("decoy-hint"), SessionID: []byte{0xde, 0xc0, 0x01}, PeerCertificates: [][]byte{{0x30, 0x00}},
+		localConnectionID: []byte{0xd1}, remoteConnectionID: []byte{0xd2}, rrcNegotiated: true,
+	}
 	if err = st2.UnmarshalBinary(raw); err != nil {
 		return before, after, "UnmarshalBinary", err
 	}
